@@ -81,6 +81,55 @@ def entry_order(ctx, case, what, ecc_bytes, files, mirror=False):
         ctx.traces += 1
 
 
+def genbody(ctx, case, tool, params, ecc_bytes, root='in'):
+    """Tie of the COMPOSED model (Walk + Stream.generate + Entry intra-ecc + Pipeline block generation + facade encoder; the object of
+    C12_body_deterministic, C03_clean_*_rs, C01_tool_*_rs): the body it computes for the tree on disk, with the hash function and the
+    rate -> message-size rule supplied as tables (hashlib; the tool's own compute_ecc_params / feature_scaling), must be byte-identical
+    to the body of the ecc file the real tool wrote (codec 3)."""
+    import importlib
+    import pipe
+    def opt(name, default):
+        return params[params.index(name) + 1] if name in params else default
+    mb, hdr, ri, hk = int(opt('--max_block_size', 255)), int(opt('-s', 1024)), float(opt('-ri', 0.5)), opt('--hash', 'md5')
+    mod = importlib.import_module('pyFileFixity.header_ecc' if tool == 'header' else 'pyFileFixity.structural_adaptive_ecc')
+    job = {'tool': 'hdr' if tool == 'header' else 'sa', 'mb': mb, 'size': hdr, 'hash': hk,
+           'rates': [float(opt('-r', 0.3))] if tool == 'header' else [float(opt('-r1', 0.3)), float(opt('-r2', 0.2)), float(opt('-r3', 0.1))]}
+    ik = mod.compute_ecc_params(mb, ri, mod.Hasher('none'))['message_size']
+    ms = mod.compute_ecc_params(mb, job['rates'][0], mod.Hasher(hk))['message_size']
+    tree = E.read_tree(root)
+    htab, seen, musz, mutb = [], set(), [], []
+    for rel, c in sorted(tree.items()):
+        lay = pipe.gen_layout(job, mod, len(c))
+        if lay is None:
+            ctx.count('genbody_skipped_geometry'); return
+        for (off, l, k, es) in lay:
+            m = c[off:off + l]
+            if m not in seen:
+                seen.add(m); htab += [m, pipe.ref_hash(hk, m)]
+        if tool == 'whole' and len(c) not in musz:
+            musz.append(len(c)); mutb.append(pipe.mu_table(job, mod, len(c), len(c)))
+    try:
+        names = sorted(tree)
+        paths = [n.replace(os.sep, '/').encode('latin-1') for n in names]
+    except UnicodeEncodeError:
+        ctx.count('genbody_skipped_non_latin1'); return
+    line = 'genbody %d 3 %d %d %d %d %d %s %s %s %s %s' % (
+        0 if tool == 'header' else 1, mb, hdr, ms, ik, mb - ik, hxl(htab), ','.join(str(x) for x in musz) or '.',
+        ';'.join(','.join(str(x) for x in t) or '1' for t in mutb) or '.', hxl(paths), hxl([tree[n] for n in names]))
+    model = unhx(ctx.model.run([line])[0])
+    impl = E.body(ecc_bytes)
+    ctx.evaluations += 1
+    ctx.count('genbody_cases')
+    ctx.nontriv(('genbody', tool, tuple(params), len(impl)))
+    if model != impl:
+        i = next((j for j in range(min(len(model), len(impl))) if model[j] != impl[j]), min(len(model), len(impl)))
+        ctx.disagree(dict(case, what='ecc body of the composed model'), {'length': len(model), 'around': model[max(0, i - 20):i + 20].hex()},
+                     {'length': len(impl), 'around': impl[max(0, i - 20):i + 20].hex(), 'first_difference': i},
+                     what='body computed by the composed model != body written by the tool')
+    else:
+        ctx.traces += 1
+
+
 def times(seed):
     import random
     r = random.Random(seed)
@@ -202,6 +251,7 @@ def tool_level(ctx):
                         continue
                     ctx.traces += 1
                     entry_order(ctx, case, 'original root', open('ecc3.db', 'rb').read(), files)
+                    genbody(ctx, case, tool, params, open('ecc3.db', 'rb').read())
                     # relocation + touch: same-length paths (identical preamble length) and different-length paths
                     for same in (True, False):
                         shutil.rmtree('in')
